@@ -48,6 +48,24 @@ def run_prelude(kind):
         MoleculeResolver.from_string('{[#X][#Y]}.{#X=[$][#P][#Q],#Y=[$][#R]}', last_all_atom=False).resolve_all()
 
 
+def history_in_child(case):
+    import json
+    import os
+    import subprocess
+    import sys
+    env = dict(os.environ)
+    env['PBR_VERSION'] = '0.0.0'
+    env['CGV_REPO'] = common.REPO
+    sub = os.path.join(os.path.dirname(os.path.abspath(__file__)), '_resolver_sub.py')
+    job = {'prelude': case['prelude'], 's': case['s'], 'laa': case['laa'], 'legacy': case['legacy']}
+    try:
+        p = subprocess.run([sys.executable, '-W', 'ignore', sub, 'record'], input=json.dumps(job), env=env,
+                           stdout=subprocess.PIPE, stderr=subprocess.PIPE, text=True, timeout=600)
+        return json.loads(p.stdout.split('@@JSON@@', 1)[1])
+    except Exception as exc:              # noqa: BLE001
+        return {'ctor_exc': 'history child failed: %s' % type(exc).__name__}
+
+
 class C02(RS.StepProp):
     id = 'C02'
     level = 'proof'
@@ -143,9 +161,12 @@ class C02(RS.StepProp):
         from cgsmiles.resolve import MoleculeResolver
         key = (case['s'], case['laa'], case['legacy'], bool(case.get('rekey')), case.get('prelude'))
 
+        if case.get('prelude') and key not in self._reccache:
+            # a history runs in its OWN interpreter, so that the case is its own replay (nothing an earlier case left
+            # behind in this process takes part, and nothing it leaves behind reaches later cases)
+            self._reccache[key] = history_in_child(case)
+
         def make():
-            if case.get('prelude'):
-                run_prelude(case['prelude'])
             if not case.get('rekey'):
                 return MoleculeResolver.from_string(case['s'], last_all_atom=case['laa'], legacy=case['legacy'])
             import re
